@@ -8,6 +8,7 @@ pub mod c18;
 pub mod c19;
 pub mod c21;
 pub mod c22;
+pub mod c23;
 pub mod c28;
 
 pub fn registry() -> Vec<CheckDef> {
@@ -21,6 +22,7 @@ pub fn registry() -> Vec<CheckDef> {
     v.push(c19::def());
     v.push(c21::def());
     v.push(c22::def());
+    v.push(c23::def());
     v.push(c28::def());
     v
 }
